@@ -25,6 +25,9 @@ def shard_layout(tier):
 @st.composite
 def cases(draw, big=False):
     fam, cell = draw(gens.cells())
+    # from small molecules to protein-sized cells (volumes beyond 1e6 A^3: det(UB) below 1e-6)
+    cscale = draw(st.sampled_from([1.0, 1.0, 1.0, 6.0, 40.0]))
+    cell = [x * cscale for x in cell[:3]] + list(cell[3:])
     U = draw(gens.rotations())
     left = draw(st.sampled_from([False, False, False, True]))
     perturb = draw(st.sampled_from([0.0, 0.0, 2e-3, 1e-4]))
@@ -194,6 +197,19 @@ def check(case, rec=None):
                               fn="calc_drlv2"))
     else:
         fails.append(exc_failure("calc_drlv2", d2))
+    # ---- score_and_refine handed a matrix that is not C-contiguous float64 (a transposed view): the in/out argument
+    #      is either refused or refined - never silently left as it was while count and error are returned
+    uT = np.asfortranarray(ubi.copy())
+    ok, rT = guard(cImageD11.score_and_refine, uT, gv, tol)
+    if ok:
+        u_c = ubi.copy()
+        ok_c, r_c = guard(cImageD11.score_and_refine, u_c, gv, tol)
+        if ok_c and not np.array_equal(u_c, ubi) and np.array_equal(uT, ubi):
+            fails.append(fail("inout", "score_and_refine accepted a Fortran-ordered matrix, returned %r, and left it "
+                              "unrefined (the C-ordered copy of the same matrix is refined); %s" % (rT, where),
+                              fn="score_and_refine/layout"))
+    elif not isinstance(rT, (ValueError, TypeError)):
+        fails.append(exc_failure("score_and_refine(F-ordered ubi)", rT))
     # ---- score_and_refine
     u2 = ubi.copy()
     ok, r = guard(cImageD11.score_and_refine, u2, gv, tol)
